@@ -872,6 +872,34 @@ def rule_indices_of_tree(ctx, prog, rule="R20"):
     ctx.ob(rule, "Edges::len/is-edge-count", len_ok, lb.where(), "= self.edges.len()" if len_ok else "Edges::len is `%s`" % fmt(lr),
            what="edge count wrong")
 
+    # the other read accessors of Edges show the stored vector itself (every element, stored order): a chain of identity views
+    VIEWS = {"iter": ("iter", "deref", "as_slice", "as_ref", "into_iter", "as_array_view"),
+             "as_array_view": ("from", "into", "aview1", "view", "deref", "as_slice", "as_ref"),
+             "is_empty": ("is_empty", "deref", "as_slice", "as_ref")}
+    for acc, allowed in sorted(VIEWS.items()):
+        ab = prog.find("histogram::bins::Edges::<A>::%s" % acc, required=False)
+        if ab is None:
+            continue
+        r = strip(ab.return_expr())
+        r0 = r
+        chain = []
+        for _ in range(8):
+            if isinstance(r, tuple) and r[0] == "call" and r[3] and len(r[3]) == 1 and r[1] in allowed:
+                chain.append(r[1])
+                r = strip(r[3][0])
+            elif isinstance(r, tuple) and r[0] in ("ref", "deref"):
+                r = strip(r[1])
+            else:
+                break
+        okv = (r == ("field", ("param", 1, "self"), "edges") or (r[:2] == ("param", 1) and "as_array_view" in chain)) \
+            and (acc != "is_empty" or "is_empty" in chain)
+        if not okv and acc == "is_empty":
+            # `self.len() == 0`
+            okv = isinstance(r0, tuple) and r0[0] == "binop" and r0[1] == "Eq" and strip(r0[3]) == ("const", "usize", 0) and \
+                isinstance(strip(r0[2]), tuple) and strip(r0[2])[0] == "call" and strip(r0[2])[1] == "len"
+        ctx.ob(rule, "Edges::%s/plain-view" % acc, okv, ab.where(), "= %s of self.edges, nothing skipped or reordered" % "·".join(chain) if okv else
+               "Edges::%s is `%s`, not a plain view of the stored edges" % (acc, fmt(r0)[:120]), what="accessor hides or reorders edges")
+
     def sym(e):
         if isinstance(e, tuple) and e[0] == "discr" and e[1] == bse:
             return "variant"
